@@ -247,8 +247,6 @@ Record view := mkView {
 Inductive fres :=
 | FErr                 (* a decoding error *)
 | FUnsigned (h : header)  (* decodes; the last additional record is not a TSIG record (or ARCOUNT = 0) *)
-| FPanic               (* signed_bitmessage_to_buf panics (debug build): ANCOUNT + NSCOUNT overflows u16, or a
-                          TSIG record is the last but one additional record (debug_assert!(sig.is_none())) *)
 | FSigned (v : view).
 
 Definition frame (m : bytes) : fres :=
@@ -266,14 +264,12 @@ Definition frame (m : bytes) : fres :=
     match skip_queries (N.to_nat (h_qd h)) rest with
     | None => FErr
     | Some r1 =>
-      if 65536 <=? h_an h + h_ns h then FPanic   (* (counts.answers + counts.authorities) as usize, in u16 *)
-      else
       match skip_plain (N.to_nat (h_an h + h_ns h)) r1 with
       | None => FErr
       | Some r2 =>
         match skip_add (N.to_nat (h_ar h - 1)) false r2 with
         | None => FErr
-        | Some (r3, true) => FPanic
+        | Some (r3, true) => FErr   (* "TSIG record before the end of the additional section" *)
         | Some (r3, false) =>
             let pos := (length m - length r3)%nat in
             match parse_tsig_rr m pos with
@@ -376,9 +372,8 @@ Record signer := mkSigner { s_name : list bytes; s_alg : alg; s_key : K; s_fudge
 
 Inductive vres :=
 | VErr                 (* the message does not decode / has no TSIG record *)
-| VDbgPanic            (* signed_bitmessage_to_buf panics, see FPanic *)
+| VPanic               (* the call panicked: an observation class the model never produces (C13_no_panic) *)
 | VWrongKey | VTrunc | VBadMac
-| VUnderflow           (* MAC verified, then `tsig.time - tsig.fudge` underflows: panic with overflow checks *)
 | VOk (m : bytes) (time lo hi : N).
 
 (* TSigner::verify_message_byte on a framed message *)
@@ -391,7 +386,7 @@ Definition verify_view (s : signer) (v : view) (prev : option bytes) (first : bo
     if negb (alg_eqb a (s_alg s)) then VWrongKey
     else if (length (t_mac t) <? out_len (s_alg s))%nat then VTrunc
     else if negb (bytes_eqb (t_mac t) (mac (s_alg s) (s_key s) (tbs prev first v))) then VBadMac
-    else if t_time t <? t_fudge t then VUnderflow
+    (* Range { start: time.saturating_sub(fudge), end: time + fudge }: subtraction on N is truncated *)
     else VOk (t_mac t) (t_time t) (t_time t - t_fudge t) (t_time t + t_fudge t)
   end.
 
@@ -399,7 +394,6 @@ Definition verify (deep : bool) (s : signer) (m : bytes) (prev : option bytes) (
   if negb deep then VErr
   else match frame m with
   | FErr | FUnsigned _ => VErr
-  | FPanic => VDbgPanic
   | FSigned v => verify_view s v prev first
   end.
 
@@ -415,7 +409,7 @@ Inductive req := QErr | QUnsigned | QSigned (v : view).
 Definition parse_request (deep : bool) (m : bytes) : req :=
   if negb deep then QErr
   else match frame m with
-  | FErr | FPanic => QErr
+  | FErr => QErr
   | FUnsigned h => if h_qd h =? 1 then QUnsigned else QErr
   | FSigned v => if h_qd (v_hdr v) =? 1 then QSigned v else QErr
   end.
@@ -443,7 +437,7 @@ Definition authorized_tsig (ss : list signer) (v : view) (now : N) : auth :=
     | VOk _ _ lo hi =>
         if in_range lo hi now then AAllow (CSigned s (t_mac (v_tsig v)) 0)
         else AReject RNotAuth (CSigned s (t_mac (v_tsig v)) 18)
-    | VUnderflow | VDbgPanic => APanic
+    | VPanic => APanic
     | _ => AReject RNotAuth (CBadSig s)
     end
   end.
@@ -536,7 +530,7 @@ Definition client_verify (deep : bool) (vf : verifier) (r : bytes) : cres :=
       if (vf_remote vf <=? rt) && in_range lo hi (vf_reqtime vf)
       then CRAccept (mkVerifier (vf_signer vf) mc rt (vf_reqtime vf))
       else CROutdated
-  | VUnderflow | VDbgPanic => CRPanic
+  | VPanic => CRPanic
   | _ => CRErr
   end.
 
